@@ -45,7 +45,7 @@ Consume ==
             LET S == GetStatus(d, e[2], e[3], e[4], clock) IN
             IF S = {} THEN rejected' = TRUE /\ UNCHANGED <<d, clock, sawErr>>
             ELSE /\ d' = CHOOSE x \in S : TRUE
-                 /\ sawErr' = (sawErr \/ (Busy(d) /\ d.pending[1] \in {"erase", "write", "badaddr"} /\ e[2] # OK /\ e[3] # "dfuDNBUSY"))
+                 /\ sawErr' = (sawErr \/ (Busy(d) /\ d.pending[1] \in {"erase", "write", "setaddr", "badaddr"} /\ e[2] # OK /\ e[3] # "dfuDNBUSY"))
                  /\ UNCHANGED <<clock, rejected>>
        [] e[1] = "SL" -> clock' = clock + e[2] /\ UNCHANGED <<d, sawErr, rejected>>
        [] e[1] = "DN" ->
